@@ -15,7 +15,7 @@
     Only statements here, each closed by [exact] of a lemma of Conc/PersistConc_proofs.v. *)
 From Coq Require Import List NArith ZArith Bool Lia.
 From Verif Require Import Base.BStr Persist.Batch Persist.MapSpec Persist.PersistSpec
-  Conc.PersistConc Conc.PersistConc_proofs.
+  Conc.PersistConc Conc.PersistConc_proofs Conc.Linearizable Conc.Linearizable_proofs.
 Import ListNotations.
 
 (** DB: for every MaxBatchSize (also < 1), initial disk, programs and schedule: every completed
@@ -34,6 +34,27 @@ Theorem C11_linearizable_serial : forall (max : Z) (d0 : disk) (progs : list (li
   let s := run VSerial max d0 progs sched in
   lin_reads (disk_map d0) (g_trace s) /\ wf_history (g_trace s).
 Proof. intros. apply linearizable_reads. reflexivity. Qed.
+
+(** linearizability in the classical sense (Herlihy & Wing), the linearization order exhibited:
+    the operations of the history -- every write that has reached its batch mutation, completed
+    or still pending, and every completed read; pending reads dropped -- can be put in ONE sequence
+    that is a permutation of them, is legal for the sequential map specification [spec_run] of
+    Persist/MapSpec.v (the one C08 is stated against) and keeps the real-time order.  The order
+    is: instant by instant, the write whose batch mutation happens at that instant, then the reads
+    that observed the register of that instant. *)
+Theorem C11_linearizable_history_db : forall (max : Z) (d0 : disk) (progs : list (list call)) (sched : list label),
+  linearizable (disk_map d0) (history_ops (g_trace (run VDb max d0 progs sched))).
+Proof. intros. apply run_linearizable. reflexivity. Qed.
+
+Theorem C11_linearizable_history_serial : forall (max : Z) (d0 : disk) (progs : list (list call)) (sched : list label),
+  linearizable (disk_map d0) (history_ops (g_trace (run VSerial max d0 progs sched))).
+Proof. intros. apply run_linearizable. reflexivity. Qed.
+
+(** the bridge used above, for ANY trace: reads justified inside their interval by the register
+    whose writes sit at fixed instants inside theirs => linearizable *)
+Theorem C11_points_imply_linearizable : forall m0 tr n,
+  lin_reads m0 tr -> wf_history tr -> chron tr -> bounded tr n -> linearizable m0 (history_ops tr).
+Proof. exact trace_linearizable. Qed.
 
 (** the register defined from the history alone IS what the state presents, overlay(batch, disk),
     after every schedule prefix: no flush step (write, reset, replace) ever changes it *)
@@ -173,7 +194,16 @@ Example C11_nonvacuous_lock_held :
   c_wl (g_core s) = Some (User 0) /\ g_trace s = [(1%nat, EvLin (User 0) (CPut ka (Some [1%N]))); (1%nat, EvCall (User 0) (CPut ka (Some [1%N])))].
 Proof. vm_compute. split; reflexivity. Qed.
 
+(** the history of a run: the operations with invocation / response instants and answers *)
+Example C11_nonvacuous_history :
+  history_ops (g_trace (run VDb 1 [] [[CPut ka (Some [5%N])]; [CGet ka]] [U 1; U 1; U 0; U 0; U 1]))
+  = [ mkO (OPut ka (Some [5%N])) 3 (Some 4%nat) (ROk, None); mkO (OGet ka) 1 (Some 5%nat) (ROk, Some [5%N]) ].
+Proof. vm_compute. reflexivity. Qed.
+
 Print Assumptions C11_linearizable_db.
+Print Assumptions C11_linearizable_history_db.
+Print Assumptions C11_linearizable_history_serial.
+Print Assumptions C11_points_imply_linearizable.
 Print Assumptions C11_linearizable_serial.
 Print Assumptions C11_register_is_overlay.
 Print Assumptions C11_register_is_last_write.
